@@ -1114,11 +1114,13 @@ UNPROVED = [
     'by this harness in its regime), C02_float_gap_intercept_partial (ulp form), C02_clipped_above/_below, '
     'C02_setter_rounding (float32 setter: relative error 2^-24, absolute 2^-150 when subnormal), plus '
     'C02_no_wrap_float(_platform/_inputs) and C02_reload_is_rounding. Missing exactly: (1) the float32 and longdouble '
-    'working formats and the float32 reload of SPM99; (2) done per element for binary64: C02_float_gap_intercept '
-    '(|s|/2 + (|x|+|i|+|s|)*2^-49, evaluated verbatim by this harness in its regime); (3) the whole-array lift is proved for float64 arrays on the SPM path (C02_array_lift, '
-    'C02_array_gap_slope_only: working format = binary64, clip bounds = post_bounds_f, value-preserving cast) - not for '
-    'the NIfTI path with intercept 0, not for 32/64-bit integer arrays, and the guard |x/s| <= 2^52 is a hypothesis on '
-    '(array, stored slope), not yet derived from the data through the slope formula; (4) how far extreme elements '
+    'working formats and the float32 reload of SPM99; (2) done (C02_float_gap_intercept per element, '
+    'C02_array_gap_slope_inter for whole float64 arrays on the NIfTI path; both bounds evaluated verbatim by this '
+    'harness); (3) whole-array lift done for float64 arrays on the SPM and NIfTI paths - not for arrays with NaN/inf '
+    'inside the lift, not for 32/64-bit integer arrays; the guards are hypotheses on (array, stored slope/intercept): '
+    'C02_guard_from_range_partial reduces the slope-only guard to M*2^-n <= S for the longdouble slope S of '
+    '_range_scale (the identification of the longdouble division/max of the model with correct rounding is missing), '
+    'nothing yet for the guard on x - i of the slope+intercept writer; (4) how far extreme elements '
     'overshoot the clip range: C02_setter_rounding gives the 2^-24 relative error of the stored slope/intercept for '
     'ideal magnitudes >= 2^-126 (not yet turned into a bound on the overshoot), C02_subnormal_slope_refuted shows the '
     'failure below 2^-126 (finding S-C02c); (5) comparison of the proved allowances with the harness '
